@@ -7,6 +7,7 @@ package dastard
 
 import (
 	"encoding/json"
+	"fmt"
 	"io"
 	"log"
 	"math/rand"
@@ -148,6 +149,9 @@ func TestMain(m *testing.M) {
 				vClientMu.Unlock()
 			}
 		}()
+	}
+	VRecover = func(name string, r any) {
+		vEmit(vmap{"ev": "Panic", "where": name, "msg": fmt.Sprint(r)})
 	}
 	rc := m.Run()
 	if vOutFile != nil {
